@@ -189,7 +189,11 @@ class C03(Prop):
             "chunks rewritten (password mode / production size: all flag bits, sampled length and counter bits); command "
             "line: `kestrel decrypt` / `kestrel password decrypt` on small files made by the library and by the program with "
             "one bit flipped (every bit of the first 36 bytes, the magic through file argument AND stdin, one bit of every "
-            "other header byte, sampled chunk bits; thorough: every bit both ways), must exit 1 and release nothing; a case is "
+            "other header byte, sampled chunk bits; thorough: every bit both ways), must exit 1 and release nothing; whole-record edits "
+            "(delete / duplicate / triple / copy to either end / swap / rotate EVERY record, drop the first or last k, append) of files of "
+            "every chunk layout (empty plaintext, one short chunk, full chunks, short NON-final chunks first / middle / everywhere; chunk hooks "
+            "with the model, key and password files with the direct oracle); every proper prefix of files SEARCHED among thousands so that "
+            "the final tag ends in bytes a reused buffer would hold anyway (zero, 0xff, the preceding record's body or plaintext); a case is "
             "non-trivial when it is not the unmodified authentic file; distinct = distinct driver command lines")
     assumptions = ["no-forgery-in-run premise (INT-CTXT of ChaCha20-Poly1305 idealised, DESIGN section 4)",
                    "AEAD correctness laws aead_ok are proved for the Gallina RFC 8439 instance"]
@@ -443,6 +447,12 @@ class C03(Prop):
         em, ed = c03_equal_chunk_stream(self, ctx, ctx.thorough())
         self.run_cases(ctx, em, model=True)
         self.run_direct_par(ctx, ed + c03_equal_chunk_files(self, ctx, ctx.thorough()))
+        # whole-record edits (delete / duplicate / swap EVERY record, the first and the last too) of files of every chunk layout
+        self.run_cases(ctx, r1_c03_record_edit_cases(self, ctx, ctx.thorough()), model=True)
+        # every proper prefix of files whose final tag ends in bytes a reused buffer would hold anyway (searched among many files)
+        tm, td = r1_c03_tag_tail_cases(self, ctx, ctx.thorough())
+        self.run_cases(ctx, tm, model=True)
+        self.run_direct_par(ctx, td + r1_c03_record_edit_files(self, ctx, ctx.thorough()))
         # the same statement at the command line: `kestrel decrypt` / `kestrel password decrypt` on damaged files
         if os.path.exists(vlib.CLIDRV):
             c03_cli_tamper(self, ctx)
@@ -741,6 +751,195 @@ def c03_cli_tamper(self, ctx):
         w.close()
 
 
+# ---- C03: edits of whole records of files with EVERY chunk layout; truncation inside a tag whose tail equals leftover bytes
+def r1_c03_record_edits(recs):
+    """[(label, record list)]: every deletion of one record (the first and the last too), of the first k and the last k records,
+    every duplication (in place, at the front, at the end), every swap of two records, every rotation; plus extensions"""
+    n = len(recs)
+    out = []
+    for i in range(n):
+        out.append(("record %d of %d deleted" % (i + 1, n), recs[:i] + recs[i + 1:]))
+        out.append(("record %d of %d duplicated" % (i + 1, n), recs[:i + 1] + recs[i:]))
+        out.append(("record %d of %d repeated 3 times" % (i + 1, n), recs[:i + 1] + [recs[i]] * 2 + recs[i + 1:]))
+        out.append(("record %d of %d copied to the end" % (i + 1, n), recs + [recs[i]]))
+        out.append(("record %d of %d copied to the front" % (i + 1, n), [recs[i]] + recs))
+        for j in range(i + 1, n):
+            out.append(("records %d and %d of %d swapped" % (i + 1, j + 1, n), recs[:i] + [recs[j]] + recs[i + 1:j] + [recs[i]] + recs[j + 1:]))
+    for k in range(1, n):
+        out.append(("first %d of %d records deleted" % (k, n), recs[k:]))
+        out.append(("last %d of %d records deleted" % (k, n), recs[:n - k]))
+        out.append(("records rotated by %d" % k, recs[k:] + recs[:k]))
+    out.append(("one zero byte appended", recs + [b"\x00"]))
+    out.append(("the whole chunk section appended again", recs + recs))
+    return out
+
+
+def r1_c03_layouts(rng, cs):
+    """(plaintext length, read script) of chunk layouts: empty plaintext (one empty final chunk), one short chunk, full chunks
+    with a full / a short final chunk, SHORT non-final chunks (a source that hands out short pieces) first, in the middle,
+    everywhere, equal short chunks"""
+    lay = [(0, "-"), (1, "-"), (cs, "-"), (cs + 1, "-"), (2 * cs, "-"), (3 * cs + rng.randrange(1, cs + 1), "-")]
+    short = lambda: rng.randrange(1, cs)
+    for parts in ([short(), cs], [short(), cs, cs], [cs, short(), cs], [short(), short(), short()], [1, 1, 1, 1], [short(), cs, short(), cs, 1],
+                  [cs - 1] * 3 + [cs], [short()] * 2):
+        tail = rng.choice([0, 0, 1])            # 0: the last piece is the final chunk
+        lay.append((sum(parts) + tail, script_of(parts)))
+    return lay
+
+
+def r1_c03_record_edit_cases(self, ctx, full):
+    """chunk hooks: authentic files of every chunk layout (r1_c03_layouts), every whole-record edit (r1_c03_record_edits) of each:
+    all must be rejected (the edited file is never the authentic one), whatever is released is a prefix of the plaintext"""
+    rng = ctx.rng
+    cases = []
+    for cs in ([2, 3, 5] if full else [rng.choice([3, 4, 5])]):
+        key = ctx.rbytes(32)
+        aad = rng.choice([b"", b"egk\x20"])
+        lay = r1_c03_layouts(rng, cs)
+        pts = [ctx.rbytes(n) for n, _ in lay]
+        files, encs = authentic_chunks(ctx, key, aad, cs, pts, [rs for _, rs in lay])
+        for P, F, e in zip(pts, files, encs):
+            if e.result["code"] != 0:
+                cases.append(Case("enc_chunks", oracle=ok_only("honest chunk encryption succeeds"), tags=["recedit-enc"], **dict(e.a)))
+                continue
+            mk = lambda data, kind, tags, P=P: Case("dec_chunks", key=key, aad=aad, cs=cs, data=data,
+                                                     oracle=self.expect(P, kind), tags=tags)
+            cases.append(mk(F, "must_accept", ["authentic", "trivial"]))
+            recs = records(F)
+            seen = {F}
+            for label, rl in r1_c03_record_edits(recs):
+                data = b"".join(rl)
+                if data in seen:
+                    continue
+                seen.add(data)
+                cases.append(mk(data, "must_reject", ["record-edit", "recs=%d" % min(len(recs), 6)]))
+    return cases
+
+
+def r1_c03_record_edit_files(self, ctx, full):
+    """the same whole-record edits on key-mode and password-mode files (public API, production chunk size) whose chunks are short
+    because the source handed the plaintext out in short pieces, and on a file of full chunks (2*65536 + r bytes)"""
+    rng = ctx.rng
+    cases = []
+    (s_, spk), (r_, rpk), (e, epk) = keypairs(ctx, 3)
+    pw = rng.choice(PASSWORDS[1:])
+    parts = [rng.randrange(1, 12) for _ in range(rng.randrange(3, 6))]
+    parts2 = [rng.randrange(1, 12) for _ in range(3)]
+    plan = [("key", Case("key_enc", s=s_, spk=spk, r=rpk, e=e, epk=epk, pk=ctx.rbytes(32), data=ctx.rbytes(sum(parts) + rng.choice([0, 3])), rs=script_of(parts))),
+            ("key", Case("key_enc", s=s_, spk=spk, r=rpk, e=e, epk=epk, pk=ctx.rbytes(32), data=b"", rs="-")),
+            ("key", Case("key_enc", s=s_, spk=spk, r=rpk, e=e, epk=epk, pk=ctx.rbytes(32), data=ctx.rbytes(2 * BIG + rng.randrange(1, 9)), rs="-")),
+            ("pass", Case("pass_enc", pw=pw, salt=ctx.rbytes(32), data=ctx.rbytes(sum(parts2)), rs=script_of(parts2)))]
+    vlib.run_impl(ctx.bin, [c for _, c in plan])
+    for mode, enc in plan:
+        if enc.result["code"] != 0:
+            cases.append(Case(enc.op, oracle=ok_only("honest encryption succeeds"), tags=["recedit-enc"], **dict(enc.a)))
+            continue
+        P, F = enc.a["data"], enc.result["out"]
+        off = 132 if mode == "key" else 36
+        if mode == "key":
+            mk = lambda data, kind, tags, P=P: Case("key_dec", r=r_, rpk=rpk, data=data, oracle=self.expect(P, kind), tags=tags)
+        else:
+            mk = lambda data, kind, tags, P=P: Case("pass_dec", pw=pw, data=data, oracle=self.expect(P, kind), tags=tags)
+        cases.append(mk(F, "must_accept", ["authentic", "trivial"]))
+        recs = records(F, off)
+        edits = r1_c03_record_edits(recs)
+        if mode == "pass" and not full:            # one scrypt per case
+            first = [x for x in edits if x[0].startswith(("record 1 of", "first 1 of", "record %d of" % len(recs)))]
+            edits = first + rng.sample([x for x in edits if x not in first], 6)
+        seen = {F}
+        for label, rl in edits:
+            data = F[:off] + b"".join(rl)
+            if data not in seen:
+                seen.add(data)
+                cases.append(mk(data, "must_reject", ["record-edit-" + mode, "recs=%d" % min(len(recs), 6)]))
+    return cases
+
+
+def r1_c03_leftover_match(final_body, stale):
+    """number of trailing bytes of the final record's body (ciphertext + tag) that equal the bytes `stale` holds at the same
+    positions (stale is padded with zero bytes)"""
+    L = len(final_body)
+    st = (stale + bytes(L))[:L]
+    k = 0
+    while k < min(L, 16) and final_body[L - 1 - k] == st[L - 1 - k]:
+        k += 1
+    return k
+
+
+def r1_c03_tag_tail_cases(self, ctx, full):
+    """'every proper prefix is rejected' where a decryptor that loses track of how much it has read would go wrong: MANY authentic
+    files are made (chunk hooks: one record and two or three records; key mode through the public API: one record) and those are
+    kept whose final tag ENDS in bytes that a reused buffer would hold at that place anyway - zero bytes, the bytes of the preceding
+    record's body or of its plaintext at the same offsets, 0xff; of each of these every proper prefix is presented (and, first, the
+    whole file, in the same process).  Returns (cases for the model too, cases for the direct oracle only)."""
+    rng = ctx.rng
+    model, direct = [], []
+    cs = rng.choice([2, 3, 4])
+    key = ctx.rbytes(32)
+    aad = rng.choice([b"", b"egk\x20"])
+    n1 = 6000 if full else 2500
+    lay = []
+    for i in range(2 * n1):
+        if i % 2 == 0:
+            lay.append((rng.randrange(0, cs + 1), "-"))
+        else:
+            k = rng.choice([1, 1, 2])
+            parts = [rng.choice([cs, cs, rng.randrange(1, cs + 1)]) for _ in range(k)]
+            lay.append((sum(parts) + rng.randrange(1, cs + 1), script_of(parts)))
+    pts = [ctx.rbytes(n) for n, _ in lay]
+    from concurrent.futures import ThreadPoolExecutor
+    encs = [Case("enc_chunks", key=key, aad=aad, cs=cs, data=p, rs=rs) for p, (_, rs) in zip(pts, lay)]
+    k = max(1, min(vlib.NPROC, 8))
+    with ThreadPoolExecutor(max_workers=k) as ex:
+        list(ex.map(lambda sh_: vlib.run_impl(ctx.bin, sh_), [encs[i::k] for i in range(k)]))
+    picked = {}
+    for P, e in zip(pts, encs):
+        if e.result["code"] != 0:
+            continue
+        F = e.result["out"]
+        recs = records(F)
+        if not recs or sum(len(x) for x in recs) != len(F):
+            continue
+        body = recs[-1][16:]
+        stales = [("zero", b"")]
+        if len(recs) > 1:
+            prev_len = len(recs[-2]) - 32
+            stales += [("prev-body", recs[-2][16:]), ("prev-plain", P[len(P) - (len(body) - 16) - prev_len:len(P) - (len(body) - 16)])]
+        stales.append(("ff", b"\xff" * len(body)))
+        for name, st in stales:
+            m = r1_c03_leftover_match(body, st)
+            if m >= 1:
+                picked.setdefault((name, len(recs) > 1), []).append((m, P, F))
+    for (name, multi), lst in sorted(picked.items()):
+        lst.sort(key=lambda x: -x[0])
+        for m, P, F in lst[:(3 if full else 2)]:
+            mk = lambda data, kind, tags, P=P: Case("dec_chunks", key=key, aad=aad, cs=cs, data=data, oracle=self.expect(P, kind), tags=tags)
+            model.append(mk(F, "must_accept", ["authentic", "trivial"]))
+            for n in range(len(F)):
+                (model if n >= len(F) - 17 else direct).append(mk(F[:n], "must_reject", ["tag-tail-" + name, "match=%d" % m]))
+    ctx.distribution["c03:tag-tail-files-made"] = len(encs)
+    # key mode, production chunk size: one-record files, the payload key varies
+    (s_, spk), (r_, rpk), (e, epk) = keypairs(ctx, 3)
+    n2 = 3000 if full else 1200
+    kencs = [Case("key_enc", s=s_, spk=spk, r=rpk, e=e, epk=epk, pk=ctx.rbytes(32), data=ctx.rbytes(rng.randrange(0, 20))) for _ in range(n2)]
+    with ThreadPoolExecutor(max_workers=k) as ex:
+        list(ex.map(lambda sh_: vlib.run_impl(ctx.bin, sh_), [kencs[i::k] for i in range(k)]))
+    hits = []
+    for c in kencs:
+        if c.result["code"] == 0 and len(c.result["out"]) >= 164:
+            F = c.result["out"]
+            m = max(r1_c03_leftover_match(F[148:], b""), r1_c03_leftover_match(F[148:], b"\xff" * len(F)))
+            if m >= 1:
+                hits.append((m, c.a["data"], F))
+    hits.sort(key=lambda x: -x[0])
+    for m, P, F in hits[:(8 if full else 4)]:
+        mk = lambda data, kind, tags, P=P: Case("key_dec", r=r_, rpk=rpk, data=data, oracle=self.expect(P, kind), tags=tags)
+        direct.append(mk(F, "must_accept", ["authentic", "trivial"]))
+        for n in range(len(F) - 17, len(F)):
+            direct.append(mk(F[:n], "must_reject", ["tag-tail-key", "match=%d" % m]))
+    return model, direct
+
+
 REGISTRY = {}
 for cls in (C03,):
     REGISTRY[cls.id] = cls()
@@ -872,6 +1071,11 @@ class C01(Prop):
             "with the direct oracle, their records at counters 0,1,254..257,65534..65537,last compared with the model's AEAD "
             "at that counter; thorough: 2^24+1 chunks inside the driver, op c01rt); key-mode round trips at EVERY length "
             "2^k-17..2^k+1, k=4..16, the same windows one chunk further on and as non-final chunks (direct oracle); "
+            "key pairs searched (a pool of random pairs) so that byte i of the PUBLIC key is 0x00 / 0xff / >= 0xee / <= 0x11, for every "
+            "i = 0..31 and each role sender / recipient / ephemeral (direct oracle incl. the reported sender); command line: `kestrel encrypt` "
+            "then `kestrel decrypt` where the input, the ciphertext, the output or the keyring has an awkward NAME (framed by blanks of "
+            "several kinds, blanks only, a lone `-`, ./-o, quotes, $HOME, *, 255 bytes) while a file with the tidied name and standard input hold "
+            "other bytes: exit 0, ciphertext under exactly the -o name, output = input, sender named, look-alike files untouched; "
             "non-trivial = every case (no two share input+schedule)")
     assumptions = ["X25519 commutativity (dh_comm) is a hypothesis of the key-mode round-trip theorem",
                    "AEAD/hash laws proved for the Gallina RFC instance"]
@@ -938,9 +1142,19 @@ class C01(Prop):
             self.run_cases(ctx, c01_model_sample(ctx, lc, 12), model=True)
         if full:
             c01_inproc_counts(ctx)
+        # key pairs whose PUBLIC key takes an extreme value at every byte position, in every role (sender, recipient, ephemeral)
+        c01_direct(ctx, r1_c01_key_byte_cases(ctx, full))
+        # the same statement through the real program, the files called by awkward names
+        if os.path.exists(vlib.CLIDRV):
+            r1_c01_cli_names(self, ctx)
+        else:
+            ctx.broken.append({"kind": "correspondence", "what": "clidrv was not built: command-line round trips of C01 not checked"})
 
     def replay(self, ctx, payload):
         d = payload.get("input", {})
+        if d.get("kind") == "proc":
+            import props_cli
+            return props_cli.k_replay(ctx, payload)
         if d.get("op") == "c01_roundtrip":
             return c01_replay_roundtrip(ctx, d, payload)
         if d.get("op") == "c01rt":
@@ -1200,6 +1414,199 @@ def c01_inproc_counts(ctx):
         elif "outcome=ok" not in line:
             ctx.violations.append({"input": {"op": "c01rt", "line": l}, "expected": "decrypt(encrypt(P)) = P for a plaintext of %s one-byte chunks"
                                    % l.split()[4], "observed": line[:400], "finding_key": None})
+
+
+# ---- C01: "every sender and recipient key pair" — public keys with an extreme value at every byte position
+R1_C01_BYTE_CLASSES = (("=00", lambda v, i: v == 0x00), ("=ff", lambda v, i: v == (0x7f if i == 31 else 0xff)),
+                       (">=ee", lambda v, i: v >= (0x78 if i == 31 else 0xee)), ("<=11", lambda v, i: v <= (0x07 if i == 31 else 0x11)))
+
+
+def r1_c01_key_pool(ctx, n):
+    """n random X25519 key pairs from the implementation's own x25519_derive_public, in a few driver processes"""
+    from concurrent.futures import ThreadPoolExecutor
+    sks = [ctx.rbytes(32) for _ in range(n)]
+    k = max(1, min(vlib.NPROC, 8))
+    shards = [list(range(i, n, k)) for i in range(k)]
+
+    def run(idx):
+        res, _ = vlib.run_driver(ctx.bin, ["%d xpub %s" % (i, vlib.hexs(sks[i])) for i in idx])
+        out = []
+        for i in idx:
+            kv = dict(t.split("=", 1) for t in res.get(str(i), "").split()[1:] if "=" in t)
+            if kv.get("outcome") == "ok" and len(kv.get("out", "")) == 64:
+                out.append((sks[i], bytes.fromhex(kv["out"])))
+        return out
+    with ThreadPoolExecutor(max_workers=k) as ex:
+        return [p for part in ex.map(run, shards) for p in part]
+
+
+def r1_c01_key_byte_cases(ctx, full):
+    """key-mode round trips (public API, direct oracle: the plaintext comes back and the sender's static public key is
+    reported) in which ONE of the three key pairs of a file - sender, recipient, ephemeral - has been ground (a pool of random
+    key pairs, searched) so that byte i of its PUBLIC key is 0x00, 0xff (0x7f for the top byte), >= 0xee or <= 0x11: for every
+    byte position i = 0..31, every class, every role.  A comparison, a canonical-form test or a sign/endianness slip applied
+    to the bytes of a key singles out such keys; random key pairs hit a given (position, class) with probability 1/256..1/14 only."""
+    rng = ctx.rng
+    pool = r1_c01_key_pool(ctx, 6000 if full else 3000)
+    if len(pool) < 8:
+        return []
+    picks = []
+    for i in range(32):
+        for cname, pred in R1_C01_BYTE_CLASSES:
+            hit = [kp for kp in pool if pred(kp[1][i], i)]
+            for kp in (rng.sample(hit, min(len(hit), 2 if full else 1))):
+                picks.append((i, cname, kp))
+    plain = pool[:6]
+    plan = []
+    for i, cname, (sk, pk) in picks:
+        for role in ("sender", "recipient", "ephemeral"):
+            (s, spk), (r, rpk), (e, epk) = rng.sample(plain, 3)
+            if role == "sender":
+                s, spk = sk, pk
+            elif role == "recipient":
+                r, rpk = sk, pk
+            else:
+                e, epk = sk, pk
+            n = rng.choice([0, 1, rng.randrange(2, 200), rng.randrange(2, 200)])
+            P = ctx.rbytes(n)
+            tag = "keybyte-%s%s" % (role, cname)
+            enc = Case("key_enc", s=s, spk=spk, r=rpk, e=e, epk=epk, pk=ctx.rbytes(32), data=P,
+                       oracle=ok_only("key encryption succeeds"), tags=["key-byte", "enc", tag])
+            plan.append((P, r, rpk, spk, enc, "byte %d of the %s's public key %s" % (i, role, cname)))
+    c01_run_fresh(ctx, [x[4] for x in plan])
+    out = []
+    for P, r, rpk, spk, enc, what in plan:
+        out.append(enc)
+        if enc.result["code"] != 0:
+            continue
+        d = Case("key_dec", r=r, rpk=rpk, data=enc.result["out"], oracle=c01_dec_oracle(P, spk, "decrypt(encrypt(P)) = P (%s)" % what),
+                 tags=["key-byte", "dec", enc.tags[2]])
+        d.c01_origin = c01_origin(enc, d, {"note": what})
+        out.append(d)
+    return out
+
+
+# ---- C01 at the command line: encrypt FILE -o CT, decrypt CT -o OUT, the files called by awkward names
+R1_C01_BLANKS = [" ", "\t", "\n", "\r", "\u00a0", "\u3000", "\u2003", "\u0085", "\u000b"]
+
+
+def r1_c01_awkward_names(rng, full):
+    """[(family, name)]: file names a front end that 'tidies' its arguments would not take literally.  All are single path
+    components, valid UTF-8, no '/' and no NUL, and none begins with '-' followed by more characters (that is an option)."""
+    stem = lambda: "".join(rng.choice("abcdefghijklmnopqrstuvwxyz0123456789") for _ in range(rng.randrange(3, 9))) + rng.choice(["", ".bin", ".txt", ".ktl"])
+    out = [("dash", "-")]
+    for b in (R1_C01_BLANKS if full else [" ", "\t", "\n"] + rng.sample(R1_C01_BLANKS[3:], 2)):
+        out.append(("blank-after", stem() + b))
+        out.append(("blank-before", b + stem()))
+    out.append(("blank-both", rng.choice(R1_C01_BLANKS) + stem() + rng.choice(R1_C01_BLANKS)))
+    out.append(("blank-run", stem() + " " * rng.randrange(2, 5)))
+    out.append(("blank-only", rng.choice([" ", "  ", "\t", "\u00a0", " \t "])))
+    out.append(("blank-inside", stem() + rng.choice(R1_C01_BLANKS) + stem()))
+    out.append(("dash-blank", rng.choice([" -", "\t-", " - "])))
+    out.append(("dot-slash-dash", "./" + rng.choice(["-", "--", "-o", "-k", "--env-pass", "-t"])))
+    for s in ('"%s"' % stem(), "'%s'" % stem(), stem() + "\\", "~" + stem(), "$HOME", "%s", "*", "a=b", stem() + ".", "." + stem(), "@" + stem(),
+              "é" + stem(), stem() + "\U0001F600", "x" * 255):
+        out.append(("literal", s))
+    return out
+
+
+def r1_c01_cli_names(self, ctx):
+    """C01 through the real program: `kestrel encrypt IN -t bob -f alice -o CT -k KR` then `kestrel decrypt CT -t bob -k KR -o OUT`,
+    every command in a directory of its own, where one (or all) of IN / CT / OUT / KR is an awkward name: framed by blanks (space,
+    tab, newline, CR, NBSP, U+3000 ...), blanks only, a lone `-`, `./-o`, quotes, `$HOME`, `*`, 255 bytes.  A file whose name is the
+    TIDIED form of the awkward name (blanks stripped) holds other bytes, and standard input holds other bytes too.  Demanded:
+    both commands exit 0, the ciphertext exists under exactly the name given to -o, OUT holds exactly the bytes of IN, the
+    sender is named (`Success. File from: alice`), nothing goes to standard output, and the look-alike files are untouched."""
+    import props_cli as pc
+    from concurrent.futures import ThreadPoolExecutor
+    rng = ctx.rng
+    full = ctx.thorough()
+    (a, A), (b, B) = keypairs(ctx, 2)
+    EA, EB = c05_pk_text(A), c05_pk_text(B)
+    pw = rng.choice([b"pw-c01", "böb ✓".encode("utf-8"), b"x y"])
+    locked_a, locked_b = pc.lock_keys([(a, pw, ctx.rbytes(32)), (b, pw, ctx.rbytes(32))])
+    ring = pc.key_block(b"alice", EA, locked_a) + b"\n" + pc.key_block(b"bob", EB, locked_b)
+    names = r1_c01_awkward_names(rng, full)
+    places = ("in", "ct", "out", "kr")
+    jobs = []
+    for fam, nm in names:
+        core = fam == "dash" or (fam == "blank-after" and nm[-1] in " \n") or (fam == "blank-before" and nm[0] == " ")
+        for pl in (places if (full or core) else rng.sample(places, 1)):
+            jobs.append({"fam": fam, "name": nm, "places": (pl,)})
+    for _ in range(6 if full else 2):
+        four = rng.sample([n for f, n in names if f.startswith("blank") and f != "blank-only"], 4)
+        if len(set(four)) == 4:
+            jobs.append({"fam": "all-four", "name": None, "four": four, "places": places})
+    for i, j in enumerate(jobs):
+        j["i"] = i
+        j["P"] = ctx.rbytes(rng.choice([0, 1, rng.randrange(2, 300), rng.randrange(2, 300), 65536 + rng.randrange(1, 50)]))
+        j["decoy"] = b"DECOY " + ctx.rbytes(rng.randrange(1, 40))
+    w = pc.World(prefix="kv_c01n_")
+
+    def one(j):
+        d = os.path.join(w.dir, "j%d" % j["i"])
+        os.mkdir(d)
+        nm = {"in": "plain.bin", "ct": "cipher.ktl", "out": "back.bin", "kr": "ring.txt"}
+        for k, pl in enumerate(j["places"]):
+            nm[pl] = j["four"][k] if j["name"] is None else j["name"]
+        put = lambda n, data: open(os.path.join(d, n), "wb").write(data)
+        get = lambda n: open(os.path.join(d, n), "rb").read() if os.path.isfile(os.path.join(d, n)) else None
+        put(nm["in"], j["P"])
+        put(nm["kr"], ring)
+        decoys = {}
+        for pl in j["places"]:
+            base = os.path.basename(nm[pl])
+            t = base.strip()
+            for cand in {t, base.rstrip(), base.lstrip()}:
+                if cand and cand not in (".", "..") and cand not in nm.values() and cand != base and not os.path.exists(os.path.join(d, cand)):
+                    put(cand, j["decoy"])
+                    decoys[cand] = j["decoy"]
+        env = pc.env_pw(pw)
+        r1 = pc.s4a_proc(w, ["encrypt", nm["in"], "-t", "bob", "-f", "alice", "-o", nm["ct"], "-k", nm["kr"], "--env-pass"], env=env, stdin=j["decoy"], cwd=d)
+        ct = get(nm["ct"])
+        r2 = pc.s4a_proc(w, ["decrypt", nm["ct"], "-t", "bob", "-k", nm["kr"], "-o", nm["out"], "--env-pass"], env=env, stdin=j["decoy"], cwd=d)
+        back = get(nm["out"])
+        touched = sorted(n for n, v in decoys.items() if get(n) != v)
+        same_in = get(nm["in"]) == j["P"]
+        import shutil
+        shutil.rmtree(d, ignore_errors=True)
+        return nm, r1, r2, ct, back, touched, same_in, sorted(decoys)
+    try:
+        with ThreadPoolExecutor(max_workers=vlib.NPROC) as ex:
+            res = list(ex.map(one, jobs))
+    finally:
+        w.close()
+    nviol = 0
+    for j, (nm, r1, r2, ct, back, touched, same_in, decoys) in zip(jobs, res):
+        ctx.evaluations += 1
+        ctx.distinct_nontrivial += 1
+        tag = "c01cli:%s@%s" % (j["fam"], "+".join(j["places"]) if len(j["places"]) == 1 else "all")
+        ctx.distribution[tag] = ctx.distribution.get(tag, 0) + 1
+        P = j["P"]
+        scen = ("C01 cli round trip of a %d-byte plaintext (%s); names: input %r, ciphertext %r, decrypted output %r, keyring %r; other files in the "
+                "directory with other content: %r; standard input holds %d other bytes"
+                % (len(P), P[:48].hex() + (".." if len(P) > 48 else ""), nm["in"], nm["ct"], nm["out"], nm["kr"], decoys, len(j["decoy"])))
+        checks = [
+            (r1.rc == 0, "`kestrel encrypt` of an existing file exits 0", "exit %d: %s" % (r1.rc, r1.errtext()[-200:])),
+            (r1.rc != 0 or (ct is not None and len(ct) == 132 + 32 * max(1, -(-len(P) // BIG)) + len(P)),
+             "the ciphertext (%d bytes) is the file named by -o" % (132 + 32 * max(1, -(-len(P) // BIG)) + len(P)),
+             "no file of that name" if ct is None else "%d bytes" % len(ct)),
+            (r1.rc != 0 or r2.rc == 0, "`kestrel decrypt` of the file just written exits 0", "exit %d: %s" % (r2.rc, r2.errtext()[-200:])),
+            (r2.rc != 0 or back == P, "the decrypted output (the file named by -o) holds exactly the %d bytes of the input file" % len(P),
+             "no file of that name" if back is None else "%d bytes: %s" % (len(back), back[:48].hex())),
+            (r2.rc != 0 or b"Success. File from: alice" in r2.err, "decryption names the sender: Success. File from: alice", r2.errtext()[-200:]),
+            (r1.out == b"" and r2.out == b"", "with -o nothing goes to standard output", "%d and %d bytes on stdout" % (len(r1.out), len(r2.out))),
+            (not touched and same_in, "files that were not named on the command line, and the input file, are left alone", "changed: %r%s" % (touched, "" if same_in else " and the input file")),
+        ]
+        for ok, exp, obs in checks:
+            ctx.oracle_checks += 1
+            if not ok:
+                nviol += 1
+                ctx.distribution["c01cli:violations"] = ctx.distribution.get("c01cli:violations", 0) + 1
+                if nviol <= 8:
+                    ctx.violations.append({"input": {"kind": "proc", "scenario": scen, "commands": [r1.describe(), r2.describe()]},
+                                           "expected": exp, "observed": obs, "finding_key": None})
+                break
 
 
 # =========================================================================== kva: password / salt / key-relation families
@@ -2755,7 +3162,8 @@ for cls in (C01, C02, C06, C09, C10, C19):
 
 class C04(Prop):
     id = "C04"
-    rule = ("cases: the C03 adversarial chunk stream (bit flips, truncations, extensions, rearrangements at chunk size 2/3) "
+    rule = ("cases: the C03 adversarial chunk stream (bit flips, truncations, extensions, rearrangements at chunk size 2/3; every "
+            "whole-record edit and extension of files of every chunk layout incl. the empty plaintext and short non-final chunks) "
             "and authentic files, each additionally run under read/write/flush fault schedules derived from its own "
             "fault-free trace (every call position, Interrupted / other error / zero-length); observation = outcome, bytes "
             "written and the full I/O trace (order and sizes of every read, write, flush), which must equal the model's; "
@@ -2807,6 +3215,8 @@ class C04(Prop):
             keep = [c for c in base if "authentic" in c.tags]
             rest = [c for c in base if "authentic" not in c.tags]
             base = keep + rng.sample(rest, min(len(rest), 150))
+        # whole-record edits and extensions of files of every chunk layout (empty plaintext, short non-final chunks, ...): all kept
+        base += [c for c in r1_c03_record_edit_cases(c3, ctx, False) if c.op == "dec_chunks"]
         # plaintext of each base case is what its C03 oracle was built with: recover by running authentic files
         auth = {}
         for c in base:
